@@ -238,17 +238,24 @@ func leafValue(w *worker, i int) *value {
 	return v
 }
 
-func runLiterals(ex *explorer) {
+func runLiterals(ex *explorer, extended bool) bool {
 	w0 := newWorkerCached(ex.r, 0)
 	forms := literalForms()
-	for i, lf := range forms {
-		for _, f := range judgeLiteralForm(w0, lf) {
-			w0.fail(int64(i), f[0], f[1], Case{Kind: "literal", Text: lf.text, Name: "lit", Sig: f[0]})
+	if !extended {
+		for i, lf := range forms {
+			fs := judgeLiteralForm(w0, lf)
+			for _, f := range fs {
+				w0.fail(int64(i), f[0], f[1], Case{Kind: "literal", Text: lf.text, Name: "lit", Sig: f[0]})
+			}
+			ex.r.Outcome(fmt.Sprintf("literal|%s|%d", litShape(lf.text), len(fs)))
+			if i%9 == 0 {
+				ex.r.Sample(map[string]interface{}{"literal": lf.text, "model_value": nm.ShowNum(lf.want)})
+			}
 		}
+		ex.r.Eval(int64(2 * len(forms)))
+		ex.r.NontrivialN(int64(2 * len(forms)))
+		ex.mergeWorkerFails(w0)
 	}
-	ex.r.Eval(int64(2 * len(forms)))
-	ex.r.NontrivialN(int64(2 * len(forms)))
-	ex.mergeWorkerFails(w0)
 	// operations with literal operands: quick: partner-pool scalars and strings x themselves, plus every scalar x
 	// a few partners; thorough: every literal-capable leaf x every scalar / core string
 	var lits, small []int
@@ -256,14 +263,14 @@ func runLiterals(ex *explorer) {
 		if l.js == "" {
 			continue
 		}
-		if l.kind != "str" || l.core || ex.r.Thorough() {
+		if l.kind != "str" || l.core || extended {
 			lits = append(lits, i)
 		}
 		if l.core {
 			small = append(small, i)
 		}
 	}
-	if ex.r.Thorough() {
+	if extended {
 		small = nil
 		for _, i := range lits {
 			if l := ex.u.leaves[i]; l.kind != "str" || l.core {
@@ -289,7 +296,7 @@ func runLiterals(ex *explorer) {
 			addPair(a, b)
 			addPair(b, a)
 		}
-		if ex.r.Thorough() {
+		if extended {
 			for _, b := range small {
 				addPair(a, b)
 				addPair(b, a)
@@ -340,8 +347,13 @@ func runLiterals(ex *explorer) {
 		w.evals = 0
 		ex.mergeWorkerFails(w)
 	}
-	ex.bounds["source literals"] = fmt.Sprintf("%d numeric literal spellings (sloppy+strict); %d compiled programs: every binary operator (expression and compound-assignment form) over %d operand pairs and every unary operator over %d literal operands, complete=%v", len(forms), len(cases), len(plist), len(lits), ok)
+	label := "source literals"
+	if extended {
+		label = "source literals (extended)"
+	}
+	ex.bounds[label] = fmt.Sprintf("%d numeric literal spellings (sloppy+strict); %d compiled programs: every binary operator (expression and compound-assignment form) over %d operand pairs and every unary operator over %d literal operands, complete=%v", len(forms), len(cases), len(plist), len(lits), ok)
 	ex.flushFails("literal")
+	return ok
 }
 
 // ---------- Go numeric kinds through Runtime.ToValue ----------
@@ -521,15 +533,15 @@ func loadRegress() []regressEntry {
 	return es
 }
 
-func checkRegression(w *worker, name string) [][2]string { return nil }
-
 func runRegression(ex *explorer) {
 	es := loadRegress()
 	n := 0
 	for _, e := range es {
+		hit := false
 		for _, f := range replayCase(ex.r, e.Case) {
-			if f[0] == e.Signature {
+			if f[0] == e.Signature && !hit {
 				ex.r.Violation(f[0], f[1], e.Case)
+				hit = true
 				n++
 			}
 		}
